@@ -1029,13 +1029,13 @@ func r01_8(c *Ctx) {
 					g := false
 					for _, ifi := range ifsIn(tf) {
 						cnd := decodeIf(ifi)
-						if cnd.Y == nil || cnd.Op != token.EQL {
+						if cnd.Y == nil || (cnd.Op != token.EQL && cnd.Op != token.NEQ) {
 							continue
 						}
 						k, isK := constInt(cnd.Y)
 						idx, isIdx := cnd.X.(*ssa.Index)
 						if isK && k == ' ' && isIdx && idx.X == ssa.Value(tf.Params[0]) {
-							if i0, ok := constInt(idx.Index); ok && i0 == 0 && edgeDominates(ifi.Block(), cnd.succWhen(true), ret.Block()) {
+							if i0, ok := constInt(idx.Index); ok && i0 == 0 && edgeDominates(ifi.Block(), cnd.succWhen(cnd.Op == token.EQL), ret.Block()) {
 								g = true
 							}
 						}
@@ -1155,6 +1155,18 @@ func r01_8(c *Ctx) {
 			if isMin {
 				b, okB := mn.Call.Value.(*ssa.Builtin)
 				isMin = okB && b.Name() == "min" && len(mn.Call.Args) == 2 && isLenOf(mn.Call.Args[1], chunk)
+			}
+			if k1, isK := constInt(sl.Low); isK && k1 == 1 && !isMin {
+				// chunk[1:] — legal only where the colon is the first byte (so the line is not empty)
+				g := false
+				for _, ifi := range ifsIn(ss) {
+					op, kk, succ, ok := cmpConstEdge(ifi, func(v ssa.Value) bool { return v == colonPos })
+					if ok && op == token.EQL && kk == 0 && edgeDominates(ifi.Block(), succ, st.Block()) {
+						g = true
+					}
+				}
+				c.check(g, name+"(comment)", P.ipos(st), "a comment is a line whose first character is the colon; its text starts after it", "chunk[1:] is used where the colon is not known to be the first byte")
+				continue
 			}
 			if !isMin {
 				c.bad(name, P.ipos(st), "the value does not start right after the colon (min(colon+1, len))")
